@@ -2,11 +2,12 @@
    Statements only; proofs live in Proofs/ReaderSplice.v and Proofs/ReaderCwd.v.  [read_file] / [read_lines] are the
    model of asm.read_lines over an abstract file system (Model/Reader.v, tied to the real reader by differential
    runs on generated trees); the search path of a file is  incs ++ [its own directory]  (-i directories in
-   order, then the directory of the including file).  That assemble() looks at the Lines only through their
-   contents for a successful result is NOT proved here (the assembler is outside this model); it is evaluated
+   order, then the directory of the including file).  That the PASSES look at the Lines only through their
+   contents is C14_lines_only below (the parser's part is NOT proved here (the assembler is outside this model); it is evaluated
    on the real code by the falsifier (assemble(tree) = assemble(flattened text), from several directories). *)
 From Coq Require Import ZArith List String.
 From BB Require Import Base.PyBase Gen.Cli Model.Reader Model.Cli Proofs.ReaderSplice Proofs.ReaderCwd.
+From BB Require Model.Items Model.Passes Proofs.Relabel.
 Import ListNotations.
 Open Scope string_scope.
 Open Scope Z_scope.
@@ -119,3 +120,14 @@ Proof.
   - split; [vm_compute; reflexivity|]. split; [vm_compute; reflexivity|].
     split; [reflexivity|]. split; [repeat constructor | vm_compute; reflexivity].
 Qed.
+
+(* the passes of the assembler look at the Line attached to an item only to report errors: the file an item came from
+   and its physical number (what distinguishes an included line from the same text written in place) do not influence
+   the bytes, the label table or the constants -- for any renaming f of the lines (Model/Passes.v, Proofs/Relabel.v) *)
+Theorem C14_lines_only : forall f its consts labels compress r,
+  Passes.assemble_items its consts labels compress = Passes.Done r ->
+  exists r', Passes.assemble_items (map (Relabel.flit f) its) consts labels compress = Passes.Done r' /\
+             map snd (Passes.r_chunks r') = map snd (Passes.r_chunks r) /\
+             Passes.r_labels r' = Passes.r_labels r /\ Passes.r_consts r' = Passes.r_consts r.
+Proof. exact Relabel.relabel_success. Qed.
+Print Assumptions C14_lines_only.
